@@ -15,8 +15,8 @@ def run(tier, deadline):
     t0 = time.time(); build()
     env = dict(os.environ, CAT_LIB=vbuild.build("prod"))
     NS = 16
-    groups = ["int", "float", "str"] + (["pairs"] if tier == "thorough" else [])
-    jobs = [[g, tier, str(i), str(NS)] for g in groups for i in range(NS if g != "pairs" else 1)]
+    groups = ["int", "float", "str", "multi"]
+    jobs = [[g, tier, str(i), str(NS)] for g in groups for i in range(NS)]
     viol = {}; internal = []; tot = {"formats_with_values": 0, "calls": 0, "float_within_tolerance": 0}; timed_out = []
     def one(j):
         left = deadline - (time.time() - t0)
